@@ -861,6 +861,23 @@ func (g *gen) specCall(e *env, n *ast.CallExpr, want string, c *Clause) T {
 		fn := "box." + sortID(v.Sort)
 		g.declare(fn, fmt.Sprintf("(declare-fun %s (%s) Iface)\n(declare-fun un%s (Iface) %s)", fn, v.Sort, fn, v.Sort))
 		return T{S: sx(fn, v.S), Sort: sIface}
+	case "maphas", "mapget":
+		// maphas(m, k) / mapget(m, k): key set and content of a Go map in the environment's heap
+		m := arg(0, sPtr)
+		if m.GoT == nil {
+			return fail("%s: no Go type for the map", name)
+		}
+		mt, ok := m.GoT.Underlying().(*types.Map)
+		if !ok {
+			return fail("%s: not a map", name)
+		}
+		vc, hc, ks, vs := g.mapComps(mt)
+		k := arg(1, ks)
+		if name == "maphas" {
+			return T{S: sx("select", sx("select", e.comp(hc), m.S), k.S), Sort: sBool}
+		}
+		_, sg := g.sortOf(mt.Elem())
+		return T{S: sx("select", sx("select", e.comp(vc), m.S), k.S), Sort: vs, Signed: sg, GoT: mt.Elem()}
 	case "sameslice":
 		a, b := arg(0, sSlice), arg(1, sSlice)
 		return T{S: sx("=", a.S, b.S), Sort: sBool}
